@@ -137,6 +137,9 @@ func report(t fataler, prop string, c interface{}, ds []Discrepancy) {
 	t.Fatalf("property %s violated (replay %s):%s", prop, path, sb.String())
 }
 
+// caseDiscarded is returned by case steps that could not be played for reasons of the machine, not of the proxy.
+const caseDiscarded = "\x00case discarded"
+
 // ---- replay registry ---------------------------------------------------------------------------
 
 var replayers = map[string]func(raw json.RawMessage) ([]Discrepancy, error){}
@@ -400,8 +403,11 @@ func startFixtureWith(cl *fakecluster.Cluster, topo *fakecluster.Topo, cfg sut.C
 	topo.Install(cl)
 	cl.SetPassword(cfg.Password)
 	fixtureSerial++
-	if cfg.Password != "" && fixtureSerial%2 == 0 {
+	switch {
+	case cfg.Password != "" && fixtureSerial%3 == 0:
 		cl.SetHandshakeGap(3 * time.Millisecond) // AUTH's and READONLY's +OK arrive in separate reads
+	case fixtureSerial%3 == 1:
+		cl.SetHandshakeCoalesce(true) // ... or in one segment with the reply to the first request behind them
 	}
 	cfg.Servers = nil
 	for _, i := range seeds {
